@@ -106,7 +106,9 @@ Plan(sc) ==
       inSt == [i \in 1..nIn |-> Stat(T, inC[i], ~plinks)]
       \* README: "A trailing slash in the source path will copy all files inside the directory, while
       \* omitting the trailing slash will copy the directory as well"
-      root == [i \in 1..nIn |-> IF TrailingSlash(I.inputs[i]) THEN inC[i] ELSE FrontOf(inC[i])]
+      \* ... Both `src/` and `src/.` are equivalent"
+      Inside(s) == TrailingSlash(s) \/ (Len(s) >= 2 /\ s[Len(s)] = DOT /\ s[Len(s) - 1] = SLASH)
+      root == [i \in 1..nIn |-> IF Inside(I.inputs[i]) THEN inC[i] ELSE FrontOf(inC[i])]
       walked == [i \in 1..nIn |-> IF inSt[i].k = "d" /\ I.r THEN WalkR(T, {inC[i]}, {}, I.a, ~plinks, 8) ELSE {}]
       ItemsOf(i) ==
         IF inSt[i].k \in {"f", "l"} THEN <<[sp |-> inC[i], root |-> root[i], k |-> inSt[i].k, explicit |-> TRUE]>>
@@ -117,7 +119,9 @@ Plan(sc) ==
       KindOf(x) ==
         IF x.k = "l" THEN (IF I.s THEN "link" ELSE "drop")
         ELSE IF x.k # "f" THEN "drop"
-        ELSE IF Filter(x.sp) /\ (x.explicit \/ MimeFor(x.sp) # "") THEN "min"
+        ELSE IF Filter(x.sp) /\ MimeFor(x.sp) # "" THEN "min"
+        ELSE IF Filter(x.sp) /\ x.explicit /\ ~I.s THEN "min"       \* explicit file of unknown type: flagged unspecified below
+        \* README -s: "Copy all files to destination directory and minify when filetype matches"
         ELSE IF I.s THEN "copy" ELSE "drop"
       kept == SelectSeq(items, LAMBDA x : KindOf(x) # "drop")
       mins == SelectSeq(items, LAMBDA x : KindOf(x) = "min")
@@ -153,7 +157,7 @@ Plan(sc) ==
         \cup (IF \E i \in 1..nIn : inSt[i].k = "l" /\ ~I.s THEN {"explicit symlink with -p links without sync"} ELSE {})
         \cup (IF \E i \in 1..nIn : inSt[i].k = "d" /\ inC[i] # <<>> /\ Hidden(inC[i][Len(inC[i])]) /\ ~I.a THEN {"hidden directory as input"} ELSE {})
         \cup (IF \E i \in 1..nIn : inSt[i].k = "f" /\ TrailingSlash(I.inputs[i]) THEN {"file with trailing slash"} ELSE {})
-        \cup (IF \E i \in 1..Len(items) : items[i].explicit /\ KindOf(items[i]) \in {"drop", "copy"} THEN {"explicit input filtered out"} ELSE {})
+        \cup (IF \E i \in 1..Len(items) : items[i].explicit /\ items[i].k = "f" /\ ~Filter(items[i].sp) THEN {"explicit input filtered out"} ELSE {})
         \cup (IF \E i \in 1..Len(items) : items[i].explicit /\ KindOf(items[i]) = "min" /\ MimeFor(items[i].sp) = "" THEN {"explicit input of unknown type"} ELSE {})
         \cup (IF \E i \in 1..Len(items) : items[i].k \notin {"f", "l"} THEN {"walk meets a dangling link"} ELSE {})
         \cup (IF \E n \in fileNames : ExtMime(ExtOf(n)) = "" /\ ExtOf(n) \notin SafeUnknownExt THEN {"extension outside the documented table"} ELSE {})
@@ -184,6 +188,10 @@ Plan(sc) ==
                     (Lookup(T, JoinComps(dstReal[k])).k = "h" \/ \E i \in DOMAIN T : T[i].k = "h" /\ Comps(T[i].t) = dstReal[k])
               THEN {"destination exists and has a second name"} ELSE {})
       known ==
+           (IF \E i \in 1..nIn : inSt[i].k = "d" /\ ~TrailingSlash(I.inputs[i]) /\ Inside(I.inputs[i]) /\ inC[i] # <<>> THEN {"slashdot"} ELSE {})
+        \cup
+           (IF \E i \in 1..Len(items) : items[i].explicit /\ items[i].k = "f" /\ I.s /\ KindOf(items[i]) = "copy" THEN {"syncfile"} ELSE {})
+        \cup
            (IF \E k \in fileDst : InPlace(k) /\ ~SpelledSame(k) THEN {"alias"} ELSE {})
         \cup (IF \E k \in fileDst : InPlace(k) /\ tasks[k].mode = "min" /\ Lookup(T, JoinComps(dstReal[k]) \o BakSuffix).k # "none" THEN {"bak"} ELSE {})
   IN [tasks |-> tasks, unspec |-> unspec, hazard |-> hazard, known |-> known,
